@@ -219,9 +219,21 @@ def main():
     tasks = [("task", (v, a)) for v in ("2", "3.0", "3.1", "4.0") for a in (False, True)]
     for r in C.run_named_tasks("harness.interactive", tasks):
         chk.absorb_dict(r)
+    # free-answer lemma: one iteration of the question loop for an ARBITRARY typed answer (solver
+    # string theory), per metric; tasks of 4 metrics each
+    ftasks = []
+    for gver in (2, 3, 4):
+        mets = [met for met, _ in G.GRAMMARS[gver]["metrics"]]
+        for i in range(0, len(mets), 4):
+            ftasks.append(("task_ANS", (gver, mets[i:i + 4])))
+    for r in C.run_named_tasks("harness.freestr", ftasks):
+        chk.absorb_dict(r)
     b = chk.extra.get("unwinding_bound")
     chk.input_model = "M-ANSWERS: per (metric, retry) one answer variable over a finite alphabet (every legal value in 4 letter cases and padded; empty; Not-Defined spellings; garbage); print logged, input() stubbed; versions 2, 3.0, 3.1, 4.0 x {mandatory, all}; no_colors symbolic"
-    chk.bounds = ["while-loops unrolled: at most %s rejected answers per question; paths needing more are excluded (unwinding assumption); a rejected answer changes no state (the loop body only appends on acceptance), so further retries repeat the same step" % b,
+    chk.input_model += ("; free-answer lemma ANS: the real body of the question loop executed path by path over z3 string terms for ONE ARBITRARY answer per metric (68 metrics), compared with a "
+                        "regular-expression oracle (case-insensitive legal value, or empty where Not Defined is legal)")
+    chk.bounds = ["free-answer lemma: the answer enters through answer.strip() (CPython's strip trusted); str.upper() encoded for stripped answers of at most 8 characters below U+0080 - longer and non-ASCII answers are outside the lemma",
+                  "while-loops unrolled: at most %s rejected answers per question; paths needing more are excluded (unwinding assumption); a rejected answer changes no state (the loop body only appends on acceptance), so further retries repeat the same step" % b,
                   "answers from the finite alphabet above; Unicode case folding of non-ASCII answers is outside the claim"]
     chk.stubs = ["print: logged", "input()/raw_input(): next answer variable", "compute_*_score: arbitrary (only acceptance by the class is used)"]
     chk.assumptions = ["the stub identifies the metric being asked from the local variable 'metric' of ask_interactively"]
